@@ -29,11 +29,23 @@ pub struct Sc {
     pub read_intr_every: usize,
     pub outcomes: Vec<Outcome>,
     pub xargs_n: Option<usize>,
+    /// "-H", "-L" (before the starting point) or "-follow" (in the expression)
+    #[serde(default)]
+    pub follow: Option<String>,
 }
 
 impl Sc {
     fn render(&mut self) {
-        let mut a = vec![self.start.clone()];
+        let mut a = vec![];
+        if let Some(f) = &self.follow {
+            if f != "-follow" {
+                a.push(f.clone());
+            }
+        }
+        a.push(self.start.clone());
+        if self.follow.as_deref() == Some("-follow") {
+            a.push("-follow".into());
+        }
         if self.sorted {
             a.push("-sorted".into());
         }
@@ -97,6 +109,7 @@ impl Property for C07 {
                 vec![]
             },
             xargs_n: if rng.chance(1, 3) { Some(*rng.pick(&[1usize, 2, 3, 10])) } else { None },
+            follow: if rng.chance(1, 4) { Some(rng.pick(&["-H", "-L", "-L", "-follow"]).to_string()) } else { None },
         };
         sc.render();
         sc
@@ -119,7 +132,11 @@ impl Property for C07 {
             return;
         }
         let wcfg = WalkCfg {
-            follow: FollowMode::P,
+            follow: match sc.follow.as_deref() {
+                Some("-H") => FollowMode::H,
+                Some(_) => FollowMode::L,
+                None => FollowMode::P,
+            },
             mindepth: 0,
             maxdepth: usize::MAX,
             depth_first: false,
@@ -156,6 +173,14 @@ impl Property for C07 {
         }
         if obs.log.budget_exhausted {
             rep.fail("C07.no-progress", format!("argv {:?}: output budget exhausted", sc.find.argv));
+            return;
+        }
+        if sc.follow.is_some() {
+            rep.probe("follow_mode");
+        }
+        if rw.diag_owed || !rw.may.is_empty() {
+            // a link that cannot be resolved (or closes a cycle): C02's territory
+            rep.probe("walk_diagnostic_owed_not_judged");
             return;
         }
         if obs.status != RunStatus::Exit(0) {
@@ -322,6 +347,11 @@ impl Property for C07 {
         if sc.start != "t" {
             let mut s = sc.clone();
             s.start = "t".into();
+            push(s);
+        }
+        if sc.follow.is_some() {
+            let mut s = sc.clone();
+            s.follow = None;
             push(s);
         }
         for t in shrink_tree(&sc.find.tree, &["t".to_string()]) {
